@@ -299,6 +299,42 @@ def r1_unique(ctx, tables):
     return
 
 
+def r5_pairwise(ctx, tables):
+    """thorough tier: the same uniqueness claim decided a second way, by cube algebra over pairs of entries instead of
+    enumeration of words; a disagreement with R1 is an engine inconsistency (exit 2)"""
+    R = 'C02.R5'
+    ctx.rule(R, 'pairwise cube disjointness (independent method): for every two entries whose fixed patterns are compatible '
+                '((e1 ^ e2) & m1 & m2 == 0) every word of the common sub-cube is rejected by a rejector of one of them', floor=3)
+    for v, t in tables.items():
+        npairs = nover = 0
+        ents = [e for e in t if not (e['passed_expected'] & ~e['passed_mask'] & 0xFFFF)]
+        for i, a in enumerate(ents):
+            ma, ea = a['passed_mask'], a['passed_expected']
+            for b in ents[i + 1:]:
+                mb, eb = b['passed_mask'], b['passed_expected']
+                if (ea ^ eb) & ma & mb:
+                    continue
+                npairs += 1
+                fixed = ma | mb
+                val = ea | eb
+                rj = [(r['mask'], r['unexpected']) for r in a['rejectors']], [(r['mask'], r['unexpected']) for r in b['rejectors']]
+                for sm in submasks(~fixed & 0xFFFF):
+                    w = val | sm
+                    if any((w & m) == u for m, u in rj[0]) or any((w & m) == u for m, u in rj[1]):
+                        continue
+                    nover += 1
+                    ctx.report(R, ('src/decoder.h', 'GetDecodeTable<%s>' % v, b['line']), b['line'],
+                               '%s@%04X~%s@%04X' % (a['name'], ea, b['name'], eb),
+                               'entries %s (line %s) and %s (line %s) both match opcode %04X'
+                               % (a['name'], a['line'], b['name'], b['line'], w), {'word': w})
+                    break
+        ctx.inst(R, 1, npairs)
+        ctx.notes.append('%s: %d compatible entry pairs examined algebraically, %d overlapping' % (v, npairs, nover))
+    r1v = ctx.rules['C02.R1']['violations']
+    if bool(r1v) != bool(ctx.rules[R]['violations']):
+        raise AnalysisBroken('C02: word enumeration (R1) and pair algebra (R5) disagree on overlap - engine inconsistency')
+
+
 def r2_one_table(ctx, tables, visitors):
     R = 'C02.R2'
     ctx.rule(R, 'one decode table and one dispatcher for all consumers: identical instantiations per visitor, '
@@ -438,57 +474,131 @@ def r3_length(ctx, tables, visitors):
                 ctx.report(R, f, f['body'], 'dsp1_reader', 'listing does not skip the operand word under Disassembler::NeedExpansion(opcode)')
 
 
+class _PcRenderer(Renderer):
+    """renders expressions of straight-line code with the program counter made explicit: a read of regs.pc renders as
+       PC+<number of increments so far>, and locals render as the value they were given (so that
+       `a = pc | page; ++pc; read(a)` and `read(pc++ | page)` render equally)"""
+    PCF = '(. f:Teakra::Interpreter::regs Teakra::RegisterState::pc)'
+
+    def __init__(self, f):
+        Renderer.__init__(self, f, inline_locals=False)
+        self.delta = 0
+        self.vals = {}
+        self.plain = Renderer(f, inline_locals=False)
+
+    def r(self, e, depth=0):
+        x = e
+        while isinstance(x, dict) and x.get('k') == 'cast':
+            x = x.get('e')
+        if isinstance(x, dict):
+            k = x.get('k')
+            if k == 'mem' and self.plain.r(x) == self.PCF:
+                return 'PC+%d' % self.delta
+            if k == 'un' and x.get('op') in ('post++', '++', 'post--', '--') and self.plain.r(x.get('e')) == self.PCF:
+                step = 1 if '++' in x['op'] else -1
+                before = 'PC+%d' % self.delta
+                self.delta += step
+                return before if x['op'].startswith('post') else 'PC+%d' % self.delta
+            if k == 'assign' and self.plain.r(x.get('lhs')) == self.PCF:
+                rhs = self.r(x.get('rhs'), depth + 1)
+                if x.get('op') == '+=' and rhs == '1':
+                    self.delta += 1
+                    return 'PC+%d' % self.delta
+                self.delta = None
+                return '(= PC %s)' % rhs
+            if k == 'ref' and x.get('dk') == 'local' and x.get('name') in self.vals:
+                return self.vals[x['name']]
+        return Renderer.r(self, e, depth)
+
+    def stmt(self, st):
+        """evaluate one simple statement, remembering the values given to locals"""
+        k = st.get('k')
+        if k == 'decl':
+            for v in st.get('vars', []):
+                if 'init' in v:
+                    self.vals[v['name']] = self.r(v['init'])
+            return
+        if k == 'assign':
+            t = st.get('lhs')
+            while isinstance(t, dict) and t.get('k') == 'cast':
+                t = t.get('e')
+            if isinstance(t, dict) and t.get('k') == 'ref' and t.get('dk') == 'local':
+                self.vals[t['name']] = self.r(st.get('rhs'))
+                return
+        self.r(st)
+
+
 def _fetch_loop(ctx, R):
     f = ctx.fn('Teakra::Interpreter::Run(unsigned long)')
     ctx.inst(R)
-    r = Renderer(f, inline_locals=False)
-    # locate the outer loop body statements
     loops = [n for n in f['body'].get('body', []) if n.get('k') == 'for']
     ctx.require(len(loops) == 1, 'Interpreter::Run: outer cycle loop not found')
     body = loops[0]['body'].get('body', [])
-    PR = '(call Teakra::MemoryInterface::ProgramRead on f:Teakra::Interpreter::mem (| (<< (. f:Teakra::Interpreter::regs Teakra::RegisterState::prpage) 18) (post++ (. f:Teakra::Interpreter::regs Teakra::RegisterState::pc))))'
-    idx = {}
-    for i, st in enumerate(body):
-        t = r.s(st)
-        if t.startswith('(var ') and PR in t and 'opcode' not in idx:
-            idx['opcode'] = (i, st['vars'][0]['name'])
-        elif t.startswith('(var ') and '([] f:Teakra::Interpreter::decoders l:' in t:
-            idx['decoder'] = (i, st['vars'][0]['name'], t)
-        elif st.get('k') == 'if' and 'NeedExpansion on l:' in r.r(st.get('cond')):
-            idx['expand_if'] = (i, st)
-        elif st.get('k') == 'call' and st.get('name') == 'call' and 'Matcher<' in st.get('cls', ''):
-            idx['dispatch'] = (i, st)
+    MEM = '(call Teakra::MemoryInterface::ProgramRead on f:Teakra::Interpreter::mem '
+    PAGE = '(<< (. f:Teakra::Interpreter::regs Teakra::RegisterState::prpage) 18)'
+
+    def read_at(d):
+        a, b = sorted([PAGE, 'PC+%d' % d])
+        return MEM + '(| %s %s))' % (a, b)
+    DEC = '([] f:Teakra::Interpreter::decoders %s)' % read_at(0)
+    pr = _PcRenderer(f)
+    # straight-line prefix of the cycle: everything up to the statement that dispatches the instruction
+    first = next((i for i, st in enumerate(body) if any(n.get('k') == 'call' and n.get('name') == 'ProgramRead' for n in walk(st))), None)
+    disp = next((i for i, st in enumerate(body) if st.get('k') == 'call' and st.get('name') == 'call' and 'Matcher<' in st.get('cls', '')), None)
+    if first is None or disp is None or disp < first:
+        raise AnalysisBroken('C02: Interpreter::Run: program fetch / dispatch statements not recognised')
+    # the fetch may be prepared by simple statements in front of the read (address temporaries, a separate ++pc)
+    while first > 0 and body[first - 1].get('k') in ('decl', 'assign', 'un'):
+        first -= 1
     probs = []
-    for k in ('opcode', 'decoder', 'expand_if', 'dispatch'):
-        if k not in idx:
-            probs.append('fetch loop: %s statement not found' % k)
-    if not probs:
-        op = idx['opcode'][1]
-        dname = idx['decoder'][1]
-        if '([] f:Teakra::Interpreter::decoders l:%s)' % op not in idx['decoder'][2]:
-            probs.append('decoder is not decoders[opcode] of the word just fetched')
-        ei = idx['expand_if'][1]
-        if r.r(ei.get('cond')) != '(call Matcher<%s>::NeedExpansion on l:%s )' % (INTERP, dname):
-            probs.append('second fetch is not guarded by decoder.NeedExpansion() of the same opcode')
-        th = r.s(ei.get('then'))
-        if not (th.startswith('{(= l:') and th.endswith(PR + ')}')) or ei.get('else') is not None:
-            probs.append('second word is not fetched with a post-incrementing ProgramRead into the expansion variable')
-            ev = '?'
+    expand_if = None
+    for st in body[first:disp]:
+        k = st.get('k')
+        if k in ('decl', 'assign', 'un', 'call', 'opcall'):
+            pr.stmt(st)
+        elif k == 'if' and any(n.get('k') == 'call' and n.get('name') == 'ProgramRead' for n in walk(st)):
+            if expand_if is not None:
+                probs.append('more than one conditional program read in a cycle')
+            expand_if = st
+            cond = pr.r(st.get('cond'))
+            if cond != '(call Matcher<%s>::NeedExpansion on %s )' % (INTERP, DEC):
+                probs.append('second fetch is not guarded by decoders[opcode].NeedExpansion() of the word just fetched: ' + cond[:160])
+            if pr.delta != 1:
+                probs.append('pc is not advanced exactly once by the opcode fetch')
+            if st.get('else') is not None:
+                probs.append('operand fetch has an else branch')
+            before = dict(pr.vals)
+            for s2 in (st['then'].get('body', []) if st['then'].get('k') == 'block' else [st['then']]):
+                if s2.get('k') in ('decl', 'assign', 'un', 'call', 'opcall'):
+                    pr.stmt(s2)
+                else:
+                    probs.append('operand fetch branch is not straight-line code')
+            changed = {n: v for n, v in pr.vals.items() if before.get(n) != v and n in before}
+            if pr.delta != 2:
+                probs.append('pc is not advanced exactly once by the operand fetch')
+            ev = [n for n, v in changed.items() if v == read_at(1)]
+            if len(ev) != 1:
+                probs.append('second word is not fetched from pc+1 of the same page into the expansion variable: %s' % sorted(changed.items())[:3])
+            else:
+                ev = ev[0]
+                if before.get(ev) != '0':
+                    probs.append('expansion variable is not 0 when the instruction has no second word')
+                d = pr.r(body[disp])
+                pr.vals[ev] = 'EXP'
+                d = pr.r(body[disp])
+                want = '(call Matcher<%s>::call on %s (* this) %s EXP)' % (INTERP, DEC, read_at(0))
+                if d != want:
+                    probs.append('dispatch is not decoders[opcode].call(*this, opcode, expand_value): ' + d[:200])
+            # after the conditional the local holds either value; nothing else may touch pc before the dispatch stages
+        elif k in ('if',):
+            pass        # rep / lp stages: C09
         else:
-            ev = th[len('{(= l:'):].split(' ')[0]
-        d = r.r(idx['dispatch'][1])
-        if d != '(call Matcher<%s>::call on l:%s (* this) l:%s l:%s)' % (INTERP, dname, op, ev):
-            probs.append('dispatch is not decoder.call(*this, opcode, expand_value): ' + d)
-        if not (idx['opcode'][0] < idx['decoder'][0] < idx['expand_if'][0] < idx['dispatch'][0]):
-            probs.append('fetch / decode / operand fetch / dispatch are out of order')
-        # no other ProgramRead in the loop (the operand word is never fetched as an opcode)
-        n_pr = sum(1 for n in walk(loops[0]) if n.get('k') == 'call' and n.get('name') == 'ProgramRead')
-        if n_pr != 2:
-            probs.append('loop body contains %d ProgramRead calls, expected exactly 2' % n_pr)
-        # expansion variable starts as 0 and is written only in the guarded fetch
-        writes = [n for n in walk(loops[0]) if n.get('k') == 'assign' and r.r(n.get('lhs')) == 'l:%s' % ev]
-        if len(writes) != 1:
-            probs.append('expansion variable written %d times in the loop' % len(writes))
+            pass
+    if expand_if is None:
+        probs.append('no conditional fetch of the second instruction word')
+    n_pr = sum(1 for n in walk(loops[0]) if n.get('k') == 'call' and n.get('name') == 'ProgramRead')
+    if n_pr != 2:
+        probs.append('loop body contains %d ProgramRead calls, expected exactly 2' % n_pr)
     for p in probs:
         ctx.report(R, f, loops[0], 'Interpreter::Run fetch', p)
 
@@ -603,6 +713,8 @@ def run(ctx):
                               e['expected'], int(decode.entry_expanded(e))))
     r0_model(ctx, visitors)
     r1_unique(ctx, tables)
+    if ctx.tier == 'thorough':
+        r5_pairwise(ctx, tables)
     r2_one_table(ctx, tables, visitors)
     r3_length(ctx, tables, visitors)
     r4_unused(ctx, tables, visitors)
